@@ -29,7 +29,46 @@ def sh(cmd, cwd=None, env=None, timeout=3600):
     return p.returncode, p.stdout + p.stderr
 
 
+def recheck(name: str) -> int:
+    """seeded_eval.py --recheck <id>-<label>: run the current check against the stored patch again (no test suite,
+    no demo) and record the outcome as evaluation.recheck in its meta.json"""
+    d = V / "seeded" / name
+    pid = name.split("-")[0]
+    work = Path(tempfile.mkdtemp(prefix=f"seedre-{name}-"))
+    copy = work / "repo"
+    sh(f"rsync -a --exclude .git --exclude htmlcov /repo/ {copy}/")
+    rc, out = sh(f"patch -p1 --no-backup-if-mismatch < {d / 'patch.diff'}", cwd=copy)
+    if rc != 0:
+        print(f"{name}: patch does not apply"); shutil.rmtree(work, ignore_errors=True); return 2
+    envc = dict(os.environ, TOPSEARCH_REPO=str(copy))
+    res = {}
+    for tier in ("quick", "thorough"):
+        rcq, oq = sh(["./check", pid, "--tier", tier], cwd=V, env=envc, timeout=6000)
+        lines = [l for l in oq.splitlines() if l.startswith("VIOLATION") or l.startswith("  ") or "tier=" in l]
+        if rcq == 1:
+            break
+    txt = "\n".join(lines)
+    by = []
+    if "broken obligation" in txt or "lake build failed" in txt or "not a checked theorem" in txt or "translator:" in txt:
+        by.append("bridge/proof obligation/translator")
+    if "divergence" in txt and "divergences 0" not in txt:
+        by.append("correspondence")
+    concrete = any(l.startswith("VIOLATION") and "no-failing-input-found" not in l for l in lines)
+    if concrete:
+        by.append("predicate (concrete replay)")
+    res = {"caught": rcq == 1, "tier": tier, "by": by, "concrete_replay": concrete, "output": [l[:300] for l in lines[:6]]}
+    sh(["./check", pid, "--tier", "quick"], cwd=V, timeout=3000)      # regenerate Gen from the real tree
+    m = json.loads((d / "meta.json").read_text())
+    m.setdefault("evaluation", {})["recheck"] = res
+    (d / "meta.json").write_text(json.dumps(m, indent=1))
+    shutil.rmtree(work, ignore_errors=True)
+    print(f"{name}: recheck caught={res['caught']} tier={tier} concrete={concrete} by={'+'.join(by)}")
+    return 0
+
+
 def main():
+    if sys.argv[1] == "--recheck":
+        return recheck(sys.argv[2])
     pid, src, k = sys.argv[1], Path(sys.argv[2]), sys.argv[3]
     label = str(int(k) + int(os.environ.get("SEED_LABEL_OFFSET", "0")))      # round 2 is stored as <id>-3, <id>-4
     also = [a for a in sys.argv[4:] if a.startswith("C")]          # further properties to run against it
